@@ -27,6 +27,10 @@ BaseTok(b) ==
     [] b = "uint" -> <<"unsigned", "int">>  [] b = "ulong" -> <<"unsigned", "long">>
     [] b = "llong" -> <<"long", "long">>    [] b = "longint" -> <<"long", "int">>
     [] b = "unsigned" -> <<"unsigned">>
+    [] b = "short" -> <<"short">>           [] b = "shortint" -> <<"short", "int">>
+    [] b = "ushort" -> <<"unsigned", "short">>  [] b = "ushortint" -> <<"unsigned", "short", "int">>
+    [] b = "ulongint" -> <<"unsigned", "long", "int">>  [] b = "llongint" -> <<"long", "long", "int">>
+    [] b = "ullong" -> <<"unsigned", "long", "long">>  [] b = "ullongint" -> <<"unsigned", "long", "long", "int">>
     [] b = "double" -> <<"double">>         [] b = "float" -> <<"float">>
     [] b = "char" -> <<"char">>             [] b = "bool" -> <<"bool">>
     [] b = "void" -> <<"void">>             [] b = "size_t" -> <<"size_t">>
@@ -47,7 +51,20 @@ BaseTmpl(b) == CASE b = "vecint" -> <<"int">> [] b = "vecdouble" -> <<"double">>
 BaseCxx(b) ==
   CASE b = "longint" -> <<"long">>
     [] b = "unsigned" -> <<"unsigned", "int">>
+    [] b = "shortint" -> <<"short">>
+    [] b = "ushortint" -> <<"unsigned", "short">>
+    [] b = "ulongint" -> <<"unsigned", "long">>
+    [] b = "llongint" -> <<"long", "long">>
+    [] b = "ullongint" -> <<"unsigned", "long", "long">>
     [] OTHER -> BaseTok(b)
+\* the type a specifier sequence denotes ([dcl.type.simple]: an optional trailing "int" and a lone "unsigned" do not
+\* make another type): the name of the type Shroud must resolve the declaration to
+RECURSIVE JoinWith(_, _)
+JoinWith(ws, sep) == IF ws = <<>> THEN "" ELSE IF Len(ws) = 1 THEN ws[1] ELSE ws[1] \o sep \o JoinWith(Tail(ws), sep)
+BaseType(b) ==
+  CASE b = "string" -> "std::string" [] b \in {"vecint", "vecdouble"} -> "std::vector"
+    [] b = "cls" -> "Cls" [] b = "nscls" -> "ns::Inner"
+    [] OTHER -> JoinWith(BaseCxx(b), "_")
 
 CvTok(c, v) == (IF c THEN <<"const">> ELSE <<>>) \o (IF v THEN <<"volatile">> ELSE <<>>)
 
@@ -99,7 +116,7 @@ RECURSIVE Proj(_)
 Proj(D) ==
   [ const |-> D.cq.c, volatile |-> D.cq.v,
     storage |-> IF D.st # "" THEN <<D.st>> ELSE <<>>,
-    spec |-> BaseSpec(D.base), tmpl |-> BaseTmpl(D.base),
+    spec |-> BaseSpec(D.base), tmpl |-> BaseTmpl(D.base), type |-> BaseType(D.base),
     hasdecl |-> ~(D.kind = "abs" /\ D.lv = <<>>),
     ptrs |-> D.lv,
     name |-> IF D.kind \in {"var", "func"} THEN D.nm ELSE "",
@@ -131,7 +148,8 @@ CxxTok(D, named) ==
 
 \* C (docs/cwrapper: the C counterpart of a declaration over native types): the same declaration with every
 \* reference written as a pointer; cv-qualifiers stay where they are, at every level
-NativeBases == {"int", "long", "uint", "ulong", "llong", "longint", "unsigned", "double", "float", "char", "bool",
+NativeBases == {"int", "long", "uint", "ulong", "llong", "longint", "unsigned", "short", "shortint", "ushort", "ushortint",
+                "ulongint", "llongint", "ullong", "ullongint", "double", "float", "char", "bool",
                 "void", "size_t"}
 RECURSIVE AllNative(_)
 AllNative(D) == D.base \in NativeBases /\ \A i \in 1..Len(D.ps) : AllNative(D.ps[i])
